@@ -22,22 +22,34 @@ def bound_for(solver, test, g, eps):
     raise ValueError(solver)
 
 
+# stress cases that every run contains (the rest is random): families on which a wrong stopping measure stops far too early
+FORCED = [("vi", "span", "twosink"), ("pi", "span", "twosink"), ("vi", "span", "cost"), ("vi", "max_diff", "twosink"), ("semi", "max_diff", "twosink"),
+          ("pi", "max_diff", "cost"), ("vi", "span", "twosink"), ("semi", "max_diff", "cost")]
+
+
 def gen_case(rng, i, tier):
     solver = rng.choice(["vi", "vi", "pi", "pi", "semi"])
-    spec = gen.gen_spec(rng, smax=10 if tier == "quick" else 30, kind=rng.choice(["random", "random", "unichain", "periodic", "twosink", "twosink", "cost"]),
-                        denom=rng.choice([4, 8]), R=rng.choice([1, 10, 1000, 10 ** 6]))
+    kind = rng.choice(["random", "random", "unichain", "periodic", "twosink", "twosink", "cost"])
+    forced = FORCED[i] if i < len(FORCED) else None
+    if forced:
+        solver, kind = forced[0], forced[2]
+    spec = gen.gen_spec(rng, smax=10 if tier == "quick" else 30, kind=kind, S=(rng.randint(3, 10) if forced else None),
+                        denom=rng.choice([4, 8]), R=rng.choice([10, 1000] if forced else [1, 10, 1000, 10 ** 6]))
     S = spec_size(spec)
     g = rng.choice(["1/2", "3/4", "7/8", "9/10", "99/100", "15/16"])
     eps = rng.choice(["1/1000000", "1/1000", "1/100", "1/2", "1", "10", "99"])
+    if forced:
+        g = rng.choice(["3/4", "7/8", "9/10", "15/16"])
+        eps = rng.choice(["1/1000", "1/100", "1/2"])
     op = {"op": "new", "solver": solver, "id": f"p{i}", "maxbs": rng.choice(gen.layouts_for(S)), "gamma": g, "eps": eps,
-          "test": rng.choice(["span", "max_diff"]), "n_hint": S}
+          "test": forced[1] if forced else rng.choice(["span", "max_diff"]), "n_hint": S}
     if solver == "pi":
         op["budget"] = rng.choice([1, 2, 5, 100, 100, 10000])
         op["reset"] = rng.randint(0, 1)
     if solver == "semi":
         op["shuffle"] = rng.randint(0, 1)
         op["random_seed"] = rng.randint(0, 100)
-        op["test"] = rng.choice(["max_diff", "max_diff", "span"])
+        op["test"] = forced[1] if forced else rng.choice(["max_diff", "max_diff", "span"])
     return spec, op
 
 
@@ -128,12 +140,28 @@ def run(tier, seed):
         viol = []
         if gmin < 0:
             viol.append(f"policy value exceeds optimal value?! gapmin={float(gmin)}")
+        # a quantity that sits on its bound to within 2^-40 relative is a floating-point tie of the solver's own `measure < threshold`
+        # comparison (e.g. measure = 1 exactly against eps(1-gamma)/gamma = 1 computed as 1.0000000000000009): not decidable, counted as ambiguous
+        tie = Fraction(1, 2 ** 40)
+        ties = 0
         if not gmax < pb:
-            viol.append(f"optimality gap {float(gmax):.6g} >= bound {float(pb):.6g}")
+            if gmax <= pb * (1 + tie):
+                ties += 1
+            else:
+                viol.append(f"optimality gap {float(gmax):.6g} >= bound {float(pb):.6g}")
         if vwb is not None and not Fraction(dm["vwmax"]) < vwb:
-            viol.append(f"|V - V*| = {float(Fraction(dm['vwmax'])):.6g} >= {float(vwb):.6g}")
+            if Fraction(dm["vwmax"]) <= vwb * (1 + tie):
+                ties += 1
+            else:
+                viol.append(f"|V - V*| = {float(Fraction(dm['vwmax'])):.6g} >= {float(vwb):.6g}")
         if vub is not None and not Fraction(dm["vumax"]) < vub:
-            viol.append(f"|V - V_pi| = {float(Fraction(dm['vumax'])):.6g} >= {float(vub):.6g}")
+            if Fraction(dm["vumax"]) <= vub * (1 + tie):
+                ties += 1
+            else:
+                viol.append(f"|V - V_pi| = {float(Fraction(dm['vumax'])):.6g} >= {float(vub):.6g}")
+        if ties:
+            res.ambiguous += 1
+            res.count("bound-attained-exactly(float tie)")
         if gmax > 0:
             res.count("gap>0")
         if viol:
